@@ -19,8 +19,8 @@ PROP = {
 }
 
 MANIFEST = {
-    "text": "Theorems (Coq, all operands / all context trees / all schedules / all stack capacities): the operators, index and member access and the modelled built-ins never answer with a Go panic; in the crash model (goroutine contexts Main/Worker/Collector/Producer/Consumer, recover sites as in the repaired code) every fault of class error or panic is an error of the evaluation call, try/catch returns the catch value for both, the outcome is independent of the parallel-switch schedule, and no program without a Go-stack-exhausting fault source is fatal (C05_no_fatal_partial). The unrestricted statement is refuted (C05_no_fatal_refuted: recursion through fresh value stacks or with a deep body exhausts the Go stack; recorded findings). Tie to the code: bounded-exhaustive fault enumeration, every case (fault source x context x GOMAXPROCS in {1,2,16}) evaluated by the real generated function in its own worker process; compared: value / catch value / error / process died against the model and against the property; recursion to depth 12000 through each of the 47 closure-taking built-ins and call forms (the guard must fire; the set of built-ins is read from the generator and must be covered), and faults inside still-lazy lists nested in returned maps/lists (the deep evaluation must return the error).",
+    "text": "Theorems (Coq, all operands / all context trees / all schedules / all stack capacities): the operators, index and member access and the modelled built-ins never answer with a Go panic; in the crash model (goroutine contexts Main/Worker/Collector/Producer/Consumer, recover sites as in the repaired code) every fault of class error or panic is an error of the evaluation call, try/catch returns the catch value for both, the outcome is independent of the parallel-switch schedule, and no program without a Go-stack-exhausting fault source is fatal (C05_no_fatal_partial). The unrestricted statement is refuted (C05_no_fatal_refuted: Go stack exhaustion cannot be recovered; recorded finding: recursion with a deep body). Recursion through any closure-taking method is stopped by the guard (C05_recursion_through_method_is_an_error). Tie to the code: bounded-exhaustive fault enumeration, every case (fault source x context x GOMAXPROCS in {1,2,16}) evaluated by the real generated function in its own worker process; compared: value / catch value / error / process died against the model and against the property; recursion to depth 12000 through each of the 47 closure-taking built-ins and call forms (the guard must fire; the set of built-ins is read from the generator and must be covered), and faults inside still-lazy lists nested in returned maps/lists (the deep evaluation must return the error).",
     "design_ref": "DESIGN.md section 6 C05",
-    "note": "Proof for the model; the correspondence part is fault enumeration (one subprocess per case). Trusted: Coq kernel + VM, the hand-written crash model and operator model (tied by enumeration only), the harness and worker protocol. Recorded findings (Go stack / memory exhaustion) remain: recursion through list.map, list.accept, list.multiUse (one signature per method, so that another method losing the guard is new) and recursion with a deep body.",
+    "note": "Proof for the model; the correspondence part is fault enumeration (one subprocess per case). Trusted: Coq kernel + VM, the hand-written crash model and operator model (tied by enumeration only), the harness and worker protocol. One recorded finding remains: recursion with a deep body exhausts the Go stack before the slot guard fires. Recursion through list.map / list.accept / list.multiUse was repaired (funcGen.NewEmptyStackBelow); the signature is per method, so a method losing the guard is reported as new.",
     "technique": "Coq proof over a goroutine/recover-site model + isolated-subprocess fault enumeration compared by vm_compute",
 }
